@@ -383,11 +383,28 @@ class ElementTraits<std::index_sequence<I...>, Parameter...>
         }
     }
 
+    // FixedSize fields of different sizes are never equal (the two references may stem from vectors with different fixed
+    // sizes); the sizes of VaryingSize fields are values of the preceding field and are compared with it
+    template <std::size_t K, bool IsLhsConst, bool IsRhsConst>
+    static constexpr bool equal_size_one([[maybe_unused]] const cntgs::BasicContiguousReference<IsLhsConst, Parameter...>& lhs,
+                                         [[maybe_unused]] const cntgs::BasicContiguousReference<IsRhsConst, Parameter...>& rhs) noexcept
+    {
+        if constexpr (ParameterTraitsAt<K>::TYPE == detail::ParameterType::FIXED_SIZE)
+        {
+            return cntgs::get<K>(lhs).size() == cntgs::get<K>(rhs).size();
+        }
+        else
+        {
+            return true;
+        }
+    }
+
     template <bool IsLhsConst, bool IsRhsConst>
     static constexpr auto equal(const cntgs::BasicContiguousReference<IsLhsConst, Parameter...>& lhs,
                                 const cntgs::BasicContiguousReference<IsRhsConst, Parameter...>& rhs)
     {
-        return (ElementTraits::template equal_one<I>(lhs, rhs) && ...);
+        return (ElementTraits::template equal_size_one<I>(lhs, rhs) && ...) &&
+               (ElementTraits::template equal_one<I>(lhs, rhs) && ...);
     }
 
     template <std::size_t K, bool IsLhsConst, bool IsRhsConst>
